@@ -70,6 +70,7 @@ def run(ctx):
     buf_rule(ctx, D)
     ovf_rule(ctx, D)
     shape_rule(ctx)
+    len_rule(ctx)
     eof_rule(ctx)
     pack_rule(ctx)
 
@@ -584,6 +585,54 @@ def shape_rule(ctx):
             R.require(rs["_"] == [] or rs["_"] == ["u8"], suffix + ".default", r.where(), "%s: unknown tags decode nothing further" % suffix,
                       fail_msg="%s: the default arm of the reader decodes data (%s)" % (suffix, rs["_"]))
     R.floor(found, 6, "hand-codecs", "hand-written reader/writer pairs located")
+
+
+def len_rule(ctx, bodies=None, R=None):
+    """element-count agreement: a reader loop must iterate exactly the decoded length (not a clamped / adjusted one),
+    and the writer must write `.len()` of the collection it then iterates."""
+    F = ctx.F
+    R = R or ctx.rule("C09.len", "K4", "hand-written readers iterate exactly the decoded element count; writers emit len() of the collection they iterate")
+    n = 0
+    rd = bodies if bodies is not None else [b for b in F.bodies.values() if b.impl_trait == READABLE and b.id.endswith("::read_from") and not b.mac]
+    stop = lambda call: bool(re.search(r"core::cmp::(min|max|Ord::min|Ord::max)$|::clamp$|::saturating_|::checked_|::wrapping_", call.f))
+    for b in rd:
+        reads = _io_calls(b, "r")
+        for bb in sorted(b.live_blocks()):
+            for i, s in enumerate(b.blocks[bb]["s"]):
+                if not (s[0] == "A" and s[2][0] == "agg" and isinstance(s[2][1], dict) and s[2][1].get("adt") == "core::ops::range::Range" and "usize" in b.ty(s[1][0])):
+                    continue
+                # a `lo..hi` range of usize driving a loop that reads from the wire
+                ops = s[2][2]
+                hi = op_place(ops[1]) if len(ops) > 1 else None
+                if hi is None:
+                    continue
+                loop_reads = [c for c in reads if b.can_reach(bb, c.bb) and any(b.can_reach(x, c.bb) for x in b.succ[c.bb])]
+                if not loop_reads:
+                    continue
+                n += 1
+                org = flow.origins(b, hi, at=(bb, i), stop=stop)
+                direct = bool(org) and all(o.kind == "call" and READER_READ.search(o.call.f) and not stop(o.call) for o in org)
+                lo_k = op_const(ops[0])
+                R.require(direct and lo_k is not None and lo_k.get("v") == 0, "%s:loop@%s" % (b.impl_self or b.id, b.lname(hi[0])), "%s:%d" % (b.file, s[3]),
+                          "loop `0..%s` iterates exactly the count read from the wire" % b.lname(hi[0]),
+                          fail_msg="%s: the element loop runs `%s..%s` where the bound comes from %s, not directly from the decoded length: the reader consumes a different number of elements than the writer emitted (frame desynchronises)"
+                                   % (b.impl_self or b.id, (lo_k or {}).get("v", "?"), b.lname(hi[0]), cm.origin_summary(org)))
+    if bodies is None:
+        R.floor(n, 6, "reader-loops", "count-driven reader loops in hand-written codecs")
+    # writer side: every written usize length is `.len()` of a collection of self
+    wn = 0
+    wr = [b for b in F.bodies.values() if b.impl_trait == WRITABLE and b.id.endswith("::write_to") and not b.mac] if bodies is None else []
+    for b in wr:
+        for c in _io_calls(b, "w"):
+            if _io_type(c, "w") != ["usize"]:
+                continue
+            wn += 1
+            org = cm.operand_origins(b, c, 0)
+            ok = bool(org) and all(o.kind == "call" and o.call.name() == "len" for o in org)
+            R.require(ok, "%s:write-len#%d" % (b.impl_self, wn), c.where(), "the written count is a collection's len()",
+                      fail_msg="%s writes a count that is not `.len()` of the collection it serialises: %s" % (b.impl_self, cm.origin_summary(org)))
+    if bodies is None:
+        R.floor(wn, 6, "writer-lens", "length prefixes written by hand-written codecs")
 
 
 def _norm(seq):
